@@ -236,11 +236,29 @@ impl ObjectValue for D {
     }
 }
 
+/// a partial response: a random sub-structure of a full one (objects lose some keys, lists are kept whole)
+fn prune(v: &J, rng: &mut Rng) -> J {
+    match v {
+        J::Object(m) => {
+            let mut out = serde_json::Map::new();
+            for (k, x) in m {
+                if k.starts_with("tn") || rng.chance(1, 2) {
+                    out.insert(k.clone(), prune(x, rng));
+                }
+            }
+            J::Object(out)
+        }
+        J::Array(a) => J::Array(a.iter().map(|x| prune(x, rng)).collect()),
+        x => x.clone(),
+    }
+}
+
 /// `resp-record --seed S --count N --schemas-out FILE`: Trace_Response lines
 pub fn record(args: &[String]) {
     silence_panics();
     let seed = arg_num(args, "--seed", 1);
     let count = arg_num(args, "--count", 500) as usize;
+    let overlay_all = args.iter().any(|a| a == "--overlay");
     let mut rng = Rng::new(seed ^ 0xC33);
     let schemas: Vec<Arc<Valid<Schema>>> = SCHEMAS.iter().map(|s| Arc::new(Schema::parse_and_validate(*s, "s.graphql").expect("schema"))).collect();
     if let Some(path) = arg_val(args, "--schemas-out") {
@@ -271,6 +289,9 @@ pub fn record(args: &[String]) {
         let source = *rng.pick(&["script", "unstructured"]);
         let bytes: Vec<u8> = (0..rng.range(0, 400)).map(|_| rng.next() as u8).collect();
         let sub = rng.next();
+        // a third of the cases: generate once, prune the result to a partial response, generate again over it
+        let with_overlay = overlay_all;
+        let prune_seed = rng.next();
         let r = guarded(|| {
             macro_rules! build {
                 ($r: expr) => {{
@@ -287,6 +308,23 @@ pub fn record(args: &[String]) {
             let resp = match built {
                 Ok(v) => v,
                 Err(e) => return Err(e.to_string()),
+            };
+            let mut overlay = J::Null;
+            let resp = if with_overlay {
+                let j0: J = serde_json::to_value(&resp).unwrap();
+                overlay = prune(j0.get("data").unwrap_or(&J::Null), &mut Rng::new(prune_seed));
+                let partial: serde_json_bytes::Value = serde_json::from_value(overlay.clone()).unwrap();
+                let mut script2 = ScriptRng(Rng::new(sub ^ 0x9e37));
+                let mut b = ResponseBuilder::new(&mut script2, &doc, &schema).with_min_list_size(min).with_max_list_size(max).with_partial_data(partial);
+                if let Some((n, d)) = null_ratio {
+                    b = b.with_null_ratio(n, d);
+                }
+                match b.build() {
+                    Ok(v) => v,
+                    Err(e) => return Err(e.to_string()),
+                }
+            } else {
+                resp
             };
             let j: J = serde_json::to_value(&resp).unwrap();
             let data = j.get("data").cloned().unwrap_or(J::Null);
@@ -305,18 +343,18 @@ pub fn record(args: &[String]) {
             } else {
                 None
             };
-            Ok((data, exec))
+            Ok((data, exec, overlay))
         });
         match r {
-            Ok(Ok((data, exec))) => {
-                out.line(&json!({"schema": si + 1, "kind": kind, "sels": sels, "fragments": used, "data": abstract_value(&data), "minList": min, "maxList": max,
+            Ok(Ok((data, exec, overlay))) => {
+                out.line(&json!({"overlay": if overlay.is_null() { json!(["none"]) } else { abstract_value(&overlay) }, "overlayRaw": overlay, "typenameAliasPrefix": "tn", "schema": si + 1, "kind": kind, "sels": sels, "fragments": used, "data": abstract_value(&data), "minList": min, "maxList": max,
                     "executed": exec.is_some(), "reproduced": exec.as_ref().map(|e| e.0).unwrap_or(true), "execErrors": exec.as_ref().map(|e| e.1).unwrap_or(0),
                     "errorsText": exec.as_ref().map(|e| e.2.clone()).unwrap_or(J::Null), "source": source, "text": text, "raw": data, "crash": false}));
                 emitted += 1;
             }
             Ok(Err(_exhausted)) => continue,
             Err(p) => {
-                out.line(&json!({"schema": si + 1, "kind": kind, "sels": sels, "fragments": used, "data": ["null"], "minList": min, "maxList": max, "executed": false, "reproduced": true,
+                out.line(&json!({"overlay": ["none"], "schema": si + 1, "kind": kind, "sels": sels, "fragments": used, "data": ["null"], "minList": min, "maxList": max, "executed": false, "reproduced": true,
                     "execErrors": 0, "source": source, "text": text, "crash": true, "panic": p}));
                 emitted += 1;
             }
